@@ -25,6 +25,10 @@ adversaries.
    the shortest behaviour ending in a failing start-up call per <<call, what the others are doing>>
    for 3 participants (MC_Parallel: NewFault), random NEW behaviours (-simulate), seeded random
    interleavings (with occasional failing calls); the same for the bare FMMULock protocol.
+   (c) code-driven: a participant vanishes - SIGKILL, or CancelledError raised inside the connect /
+   attach / detach it awaits - at EVERY boundary between two calls the real code makes (its call
+   sequence is learned from two probe runs, not taken from the model), as first participant or
+   joiner starting, as last leaver or leaver with company.
    After a schedule, whoever is starting or stopping finishes (error handlers included), the
    remaining participants join, then the running ones leave one by one.
  3 REPLAY  every schedule runs on the REAL ParallelEtherCat.run() / LockFile / FMMULock (bare
@@ -226,6 +230,52 @@ def random_schedules(ctx, n, mode="run"):
     return out
 
 
+def vanish_schedules(ctx):
+    """A participant VANISHES - it is killed, or its task is cancelled inside an awaited call - at
+    every boundary between two calls the code under test REALLY makes (learned from two probe runs
+    of the real code, not from the model's order of calls), in every role: the first participant
+    during its start, a joiner during its start, the last leaver and a leaver with company during
+    their stop; afterwards the remaining participants join, then everybody leaves."""
+    from harness import parworker
+    probes = replay_schedules(ctx, [dict(schedule=[], nprocs=1), dict(schedule=[], nprocs=2)], controllers=1)
+    solo, duo = probes[0]["ev"], probes[1]["ev"]
+
+    def calls(ev, p, upto_running):
+        out = []
+        for e in ev:
+            if e["p"] == p:
+                out.append(e["a"])
+                if upto_running and e["st"][p]["ph"] == "running":
+                    break
+        return out
+    first_start = calls(solo, "p1", True)
+    first_life = calls(solo, "p1", False)
+    joiner_start = calls(duo, "p2", True)
+    with_company = calls(duo, "p1", False)[len(first_start):]      # p1 leaves while p2 runs
+    if not first_start or not joiner_start or len(first_life) <= len(first_start):
+        raise T.MachineryError(f"probe runs of the real code are incomplete: {text(solo)} / {text(duo)}")
+    go = lambda p, n: [dict(p=p, a=None, c=0)] * n
+    out = []
+
+    def add(role, prefix, p, seq, nprocs):
+        for i in range(1, len(seq) + 1):
+            out.append(dict(source=f"vanish {role}", nprocs=nprocs, mode="run", predicted=[],
+                            schedule=prefix + go(p, i) + [dict(p=p, a="crash", c=0)],
+                            vanish=dict(role=role, how="crash", after=seq[i - 1])))
+        for i, a in enumerate(seq):
+            if a in parworker.AWAITED:
+                out.append(dict(source=f"vanish {role}", nprocs=nprocs, mode="run", predicted=[],
+                                schedule=prefix + go(p, i) + [dict(p=p, a="cancel", c=0)],
+                                vanish=dict(role=role, how="cancel", inside=a)))
+    add("first participant starting", [], "p1", first_start, 3)
+    add("joiner starting", go("p1", len(first_start)), "p2", joiner_start, 3)
+    add("last participant leaving", go("p1", len(first_start)), "p1", first_life[len(first_start):], 2)
+    add("participant leaving with company", go("p1", len(first_start)) + go("p2", len(joiner_start)), "p1",
+        with_company, 3)
+    return out, dict(first_start=first_start, joiner_start=joiner_start,
+                     last_leave=first_life[len(first_start):], leave_with_company=with_company)
+
+
 # ---- replay on the real code -----------------------------------------------------------------
 def _replay_chunk(args):
     """one controller process: replays its share of the schedules, reusing its worker processes"""
@@ -393,7 +443,7 @@ def judge(ctx, sc, tr, v, c):
     cm, clen, _, _ = c
     conforms = cm == clen
     common = dict(source=sc["source"], nprocs=sc["nprocs"], mode=sc.get("mode", "run"), planned=sc["schedule"],
-                  predicted=sc["predicted"],
+                  predicted=sc["predicted"], vanish=sc.get("vanish"),
                   conforms_to_model=conforms, exceptions=tr["exc"])
     if tr["hang"] or vm != vlen:
         ctx.case_failed(dict(common, inv="no-verdict", hang=tr["hang"], bound=vm, events=vlen,
@@ -478,12 +528,15 @@ def run(ctx):
         elif name.startswith("bounded"):        # keep every predicted violation, stride the others
             keep = [s for s in found if s["predicted"]]
             rest = [s for s in found if not s["predicted"]]
-            limit = (50 if "old" in name else 60 if "3p" in name else 100) if quick else \
+            limit = (50 if "old" in name else 40 if "crash" in name else 60 if "3p" in name else 100) if quick else \
                 (300 if "old" in name else 700)
             found = keep[::max(1, len(keep) // (40 if quick else 200))] + rest[::max(1, -(-len(rest) // limit))]
             info["replayed"] = len(found)
         scheds += found
     ctx.extra["design_verification"] = design
+    vs, learned = vanish_schedules(ctx)
+    ctx.extra["vanish_code_driven"] = dict(schedules=len(vs), calls_of_the_real_code=learned)
+    scheds += vs
     scheds += random_schedules(ctx, 15 if quick else 150) + random_schedules(ctx, 8 if quick else 60, "fmmu")
     t0 = time.time()
     traces = replay_schedules(ctx, scheds)
@@ -552,7 +605,10 @@ def run(ctx):
                 "with <= 1 (thorough 2) preemptions; (b) from the NEW protocol every behaviour of 2 participants "
                 "with <= 1 (thorough 2) preemptions, with one crash <= 1, with one failing start-up call (connect, "
                 "create_map, attach, obj_pin, obj_get) <= 1 (strided to the stated limits), for 3 participants the "
-                "shortest behaviour ending in a failing start-up call per <<call, what the others are doing>>, random "
+                "shortest behaviour ending in a failing start-up call per <<call, what the others are doing>>; "
+                "(c) a participant killed, or cancelled inside an awaited connect/attach/detach, at every boundary "
+                "of the calls the real code makes (learned from probe runs) in each role (first participant / joiner "
+                "starting, last leaver / leaver with company), followed by newcomers; random "
                 "3-participant behaviours (-simulate, fixed seed), bounded and simulated behaviours of 3 bare "
                 "FMMULock users, seeded random interleavings; non-trivial = the steps of at least two participants "
                 "interleave")
